@@ -384,7 +384,7 @@ def main(chk: Check):
                 prob_cases.append((c_input(ts, *args), r_prob(pr)))
 
     # ---- fcs stream: real strings through the real getter
-    n_trees = chk.n(75, 700)
+    n_trees = chk.n(55, 700)
     for _ in range(n_trees):
         nfl = rng.randint(1, 5)
         flags = FL[:nfl]
@@ -408,7 +408,7 @@ def main(chk: Check):
                 iuse.add("f")
             ft, ff, pt = rand_sets(rng, list(used) + ["f", "g"])
             one("fcs", ts, d, iuse, ft, ff, pt, src=s)
-            if len(prob_cases) < chk.n(200, 2500) and rng.random() < 0.3:
+            if len(prob_cases) < chk.n(150, 2500) and rng.random() < 0.3:
                 pr = impl.problem(d, iuse, ft, ff, pt)
                 if pr is not None:
                     prob_cases.append((c_input(ts, iuse, ft, ff, pt), r_prob(pr)))
@@ -437,7 +437,7 @@ def main(chk: Check):
         return ("G", rng.choice(OPS), rng.random() < 0.3,
                 [gen_direct(depth - 1, flags) for _ in range(rng.choice([0, 1, 1, 2, 2, 3]))])
 
-    for _ in range(chk.n(300, 3000)):
+    for _ in range(chk.n(200, 3000)):
         flags = list(FL[:rng.randint(1, 4)])
         ts = [gen_direct(rng.choice([1, 2, 2, 3]), flags) for _ in range(rng.randint(1, 2))]
         d = impl.depset(ts)
@@ -461,7 +461,7 @@ def main(chk: Check):
     # ---- solver stream: raw Problems for contract S
     from snakeoil.constraints import Problem
     sol_cases, sol_plain = [], []
-    for _ in range(chk.n(500, 6000)):
+    for _ in range(chk.n(350, 6000)):
         nv = rng.randint(0, 5)
         vs = list(FL[:nv])
         doms = []
